@@ -70,6 +70,7 @@ type Gen struct {
 	usedExt  map[string]bool
 	curBlock *ssa.BasicBlock
 	curSt    *State
+	sharedSet map[string]bool
 	curInstr ssa.Instruction
 	exits    []exitPoint
 	uses     []*Axiom
